@@ -183,6 +183,17 @@ func init() {
 			fn: func(fe *FuncEnc, f *Frame, a []Term, av []ssa.Value, st *State, p Term, pos token.Pos) []Term {
 				if c, ok := av[0].(*ssa.Const); ok && c.Value != nil && strings.Trim(c.Value.ExactString(), "\"") == "%v" {
 					if v, ok := single(fe, st, a[1], av[1]); ok {
+						// fmt follows slices and maps without cycle detection: formatting a value that (transitively) contains
+						// itself recurses until the Go stack is exhausted. Precondition of the stub, checked at the call.
+						if v.Sort == SVal {
+							fe.checkOnly = true
+							n0 := len(fe.obls)
+							fe.emit("safety.fmtcycle", fe.srcLabel(pos, "call"), p, Term{"(acyclicVal " + v.S + ")", SBool}, "the value formatted with %v does not contain itself (fmt does not detect cycles: fatal stack overflow)", pos)
+							for _, o := range fe.obls[n0:] {
+								o.Props = []string{"C07"}
+							}
+							fe.checkOnly = false
+						}
 						return []Term{Term{"(fmt.v " + v.S + ")", SStr}}
 					}
 				}
@@ -262,6 +273,45 @@ func init() {
 		"math.Abs":   math1("fp.abs", "math.Abs = IEEE abs"),
 		"math.Sqrt":  math1("fp.sqrt RNE", "math.Sqrt = correctly rounded IEEE sqrt"),
 		"math.Round": math1("fp.roundToIntegral RNA", "math.Round = roundToIntegral, ties away from zero"),
+		"math.Floor": math1("fp.roundToIntegral RTN", "math.Floor = roundToIntegral toward negative"),
+		"math.Ceil":  math1("fp.roundToIntegral RTP", "math.Ceil = roundToIntegral toward positive"),
+		"math.Trunc": math1("fp.roundToIntegral RTZ", "math.Trunc = roundToIntegral toward zero"),
+		"math.RoundToEven": math1("fp.roundToIntegral RNE", "math.RoundToEven = roundToIntegral, ties to even"),
+		"math.Copysign": {note: "math.Copysign(x, y) = |x| with the sign of y (the sign bit of a NaN y is not modelled)",
+			fn: func(fe *FuncEnc, f *Frame, a []Term, av []ssa.Value, st *State, p Term, pos token.Pos) []Term {
+				return []Term{Term{"(ite (fp.isNegative " + a[1].S + ") (fp.neg (fp.abs " + a[0].S + ")) (fp.abs " + a[0].S + "))", SF64}}
+			}},
+		"math.IsNaN": {note: "math.IsNaN = fp.isNaN",
+			fn: func(fe *FuncEnc, f *Frame, a []Term, av []ssa.Value, st *State, p Term, pos token.Pos) []Term {
+				return []Term{Term{"(fp.isNaN " + a[0].S + ")", SBool}}
+			}},
+		"math.IsInf": {note: "math.IsInf(f, sign): sign > 0 +Inf, sign < 0 -Inf, sign == 0 either",
+			fn: func(fe *FuncEnc, f *Frame, a []Term, av []ssa.Value, st *State, p Term, pos token.Pos) []Term {
+				x, sg := a[0].S, a[1].S
+				return []Term{Term{"(and (fp.isInfinite " + x + ") (or (= " + sg + " 0) (and (> " + sg + " 0) (fp.isPositive " + x + ")) (and (< " + sg + " 0) (fp.isNegative " + x + "))))", SBool}}
+			}},
+		"math.Inf": {note: "math.Inf(sign): +Inf for sign >= 0, else -Inf",
+			fn: func(fe *FuncEnc, f *Frame, a []Term, av []ssa.Value, st *State, p Term, pos token.Pos) []Term {
+				return []Term{Term{"(ite (>= " + a[0].S + " 0) (_ +oo 11 53) (_ -oo 11 53))", SF64}}
+			}},
+		"math.NaN": {note: "math.NaN() is a NaN",
+			fn: func(fe *FuncEnc, f *Frame, a []Term, av []ssa.Value, st *State, p Term, pos token.Pos) []Term {
+				return []Term{Term{"(_ NaN 11 53)", SF64}}
+			}},
+		"math.Signbit": {note: "math.Signbit = fp.isNegative (the sign bit of a NaN is not modelled)",
+			fn: func(fe *FuncEnc, f *Frame, a []Term, av []ssa.Value, st *State, p Term, pos token.Pos) []Term {
+				return []Term{Term{"(fp.isNegative " + a[0].S + ")", SBool}}
+			}},
+		"math.Max": {note: "math.Max: +Inf if either is +Inf, NaN if either is NaN, Max(+0,-0) = +0, else the larger",
+			fn: func(fe *FuncEnc, f *Frame, a []Term, av []ssa.Value, st *State, p Term, pos token.Pos) []Term {
+				x, y := a[0].S, a[1].S
+				return []Term{Term{"(ite (or (and (fp.isInfinite " + x + ") (fp.isPositive " + x + ")) (and (fp.isInfinite " + y + ") (fp.isPositive " + y + "))) (_ +oo 11 53) (ite (or (fp.isNaN " + x + ") (fp.isNaN " + y + ")) (_ NaN 11 53) (ite (and (fp.isZero " + x + ") (fp.isZero " + y + ")) (ite (fp.isNegative " + x + ") " + y + " " + x + ") (ite (fp.gt " + x + " " + y + ") " + x + " " + y + "))))", SF64}}
+			}},
+		"math.Min": {note: "math.Min: -Inf if either is -Inf, NaN if either is NaN, Min(+0,-0) = -0, else the smaller",
+			fn: func(fe *FuncEnc, f *Frame, a []Term, av []ssa.Value, st *State, p Term, pos token.Pos) []Term {
+				x, y := a[0].S, a[1].S
+				return []Term{Term{"(ite (or (and (fp.isInfinite " + x + ") (fp.isNegative " + x + ")) (and (fp.isInfinite " + y + ") (fp.isNegative " + y + "))) (_ -oo 11 53) (ite (or (fp.isNaN " + x + ") (fp.isNaN " + y + ")) (_ NaN 11 53) (ite (and (fp.isZero " + x + ") (fp.isZero " + y + ")) (ite (fp.isNegative " + x + ") " + x + " " + y + ") (ite (fp.lt " + x + " " + y + ") " + x + " " + y + "))))", SF64}}
+			}},
 		"math.Sin":   math1("ext.sin", "math.Sin uninterpreted"),
 		"math.Cos":   math1("ext.cos", "math.Cos uninterpreted"),
 		"math.Tan":   math1("ext.tan", "math.Tan uninterpreted"),
